@@ -310,6 +310,61 @@ func cpuGenInstr(c *ctx, x *cpuRun, prop string) {
 			}
 		}
 	}
+	// pairs: a conditional (taken and not taken) or other predecessor immediately followed by every opcode, so that
+	// nothing of the predecessor's bookkeeping (early-finish test, operand latches) leaks into the next instruction
+	preds := [][]uint8{{0x20, 0x00}, {0x28, 0x00}, {0x30, 0x00}, {0x38, 0x00}, {0xc2, 0, 0}, {0xca, 0, 0}, {0xd2, 0, 0}, {0xda, 0, 0},
+		{0xc0}, {0xc8}, {0xd0}, {0xd8}, {0xc4, 0, 0}, {0xcc, 0, 0}, {0xd4, 0, 0}, {0xdc, 0, 0}, {0x00}, {0x3e, 0x12}, {0xcb, 0x46}, {0xfb}, {0xf3}}
+	for pi, pred := range preds {
+		for pre := 0; pre < 2; pre++ {
+			for o := 0; o < 256; o++ {
+				op := uint8(o)
+				if !defined(pre == 1, op) || (pre == 0 && (op == 0x76 || op == 0x10)) {
+					continue
+				}
+				if !c.thorough() && (o+pi)%3 != 0 && !(pre == 1 && o&7 == 6) {
+					continue
+				}
+				rs := randRegs(r)
+				rs.f = uint8(r.intn(16)) << 4
+				op1, op2 := fixOperands(r, pre == 1, op, &rs)
+				x.do("reset")
+				x.do("irq 00 00 0")
+				// the predecessor's jump/call/return target is the follower itself: conditional ones fall through
+				// or jump to it, RET cc pops its address
+				pc := rs.pc
+				follower := pc + uint16(len(pred))
+				code := append([]uint8{}, pred...)
+				if len(pred) == 3 {
+					code[1], code[2] = uint8(follower), uint8(follower>>8)
+				}
+				if pre == 1 {
+					code = append(code, 0xcb)
+				}
+				code = append(code, op, op1, op2)
+				x.program(pc, code)
+				if len(pred) == 1 && pred[0]&0xc7 == 0xc0 { // RET cc: return address on the stack
+					x.do(fmt.Sprintf("poke %04x %02x", rs.sp, uint8(follower)))
+					x.do(fmt.Sprintf("poke %04x %02x", rs.sp+1, uint8(follower>>8)))
+				}
+				x.setRegs(rs)
+				n := 0
+				bnds := 0
+				for n < 16 && bnds < 2 {
+					out := x.do("c 1")
+					n++
+					if strings.Contains(out, "bnd=1") {
+						bnds++
+					}
+					if out == "exit" || out == "crash" {
+						break
+					}
+				}
+				nn := uint16(op2)<<8 | uint16(op1)
+				x.peekAround(rs, nn, op1)
+				c.class(fmt.Sprintf("pair/%d/%d%02x/c%d", pi, pre, op, n))
+			}
+		}
+	}
 	// the 11 undefined opcodes stop the emulator
 	for o := range undefinedOpcodes {
 		if o == 0xcb {
@@ -547,6 +602,10 @@ func cpuGenHalt(c *ctx, x *cpuRun) {
 						}
 						x.do("reset")
 						code := []uint8{0x76}
+						eiFirst := pend == 1 && ime == 0 && idle == 1 // EI; HALT with the request already pending
+						if eiFirst {
+							code = []uint8{0xfb, 0x76}
+						}
 						if pre == 1 {
 							code = append(code, 0xcb)
 						}
@@ -557,7 +616,10 @@ func cpuGenHalt(c *ctx, x *cpuRun) {
 						if pend == 1 {
 							ifl = 0x04
 						}
-						x.do(fmt.Sprintf("irq 04 %02x %d", ifl, ime))
+						x.do(fmt.Sprintf("irq %02x %02x %d", 0x04|(r.intn(8)<<5), ifl, ime))
+						if eiFirst {
+							x.do("c 1") // EI
+						}
 						x.do("c 1") // HALT
 						for k := 0; k < idle; k++ {
 							x.do("c 1")
